@@ -188,9 +188,9 @@ func (c *neoChain) epochBefore(idx uint32) int {
 	return e
 }
 
-const neoModes = 10
+const neoModes = 12
 
-var neoModeNames = []string{"honest", "below-m", "dup-sig", "other-script", "lowered-m", "bad-sig", "prev-set", "reversed", "all-n", "superset-script"}
+var neoModeNames = []string{"honest", "below-m", "dup-sig", "other-script", "lowered-m", "bad-sig", "prev-set", "reversed", "all-n", "superset-script", "m-minus-one-script", "m-plus-one-script"}
 
 func neoFaultLabel(l string) bool { return l != "honest" && l != "all-n" }
 
@@ -279,6 +279,18 @@ func (c *neoChain) witness(msg []byte, t, prev *neoSet, mode, p, q int64) (inv, 
 			}
 		}
 		return c.cd.invocation(sigsOf(sel)), sup.script, label
+	case 10, 11:
+		// a k-of-n script over exactly the entitled keys with k = m-1 / m+1 and exactly k valid
+		// distinct signers (NEO's rule is m = n-(n-1)/3: k = m-1 must never be enough)
+		k := t.m - 1
+		if m == 11 {
+			k = t.m + 1
+		}
+		if k < 1 || k > len(t.members) {
+			return c.cd.invocation(sigsOf(pick(c.evil, c.evil.m))), c.evil.script, "other-script"
+		}
+		ks := c.mkSet(t.members, k, fmt.Sprintf("%d-of-%d", k, len(t.members)))
+		return c.cd.invocation(sigsOf(pick(ks, k))), ks.script, label
 	}
 	return nil, nil, label
 }
